@@ -2753,23 +2753,28 @@ def operations_model(P, R, which=None):
                     (T[3], T[6], {'xp': 'x', 'yp': 'y'}, ['x', 'y']),
                     (T[2], T[7], {'xp': 'x', 'yp': 'y'}, ['x', 'y']),
                     (T[0], 1, {'xp': 'x'}, ['x']),
+                    # a renamed variable that is itself quantified
+                    (T[0], T[4], {'xp': 'x'}, ['x', 'y', 'xp']),
+                    (T[1], T[5], {'xp': 'x', 'yp': 'y'}, ['x', 'y', 'yp']),
                 ]
                 lv = {v: k for k, v in enumerate(order)}
                 for trans, source, mp, qv in cases:
                     # (the variables to quantify by name, and by level
                     # with the renaming still by name: both are accepted)
-                    for qarg in (list(qv), [lv[q] for q in qv]):
+                    for qarg, forall in ((list(qv), False),
+                                         ([lv[q] for q in qv], False),
+                                         (list(qv), True)):
                         obj = fresh(base)
                         out, _ = call(img, obj, [
                             trans, source, dict(mp), qarg, obj,
-                            False], method=False)
+                            forall], method=False)
                         conj = tuple(p and q for p, q in
                                      zip(tt[trans], tt[source]))
-                        want = ren(quant(conj, qv, False), mp)
+                        want = ren(quant(conj, qv, forall), mp)
                         check((img, 'image'),
                               f'order {order}: image(trans={trans}, '
                               f'source={source}, rename={mp}, '
-                              f'qvars={qarg})',
+                              f'qvars={qarg}, forall={forall})',
                               obj, ext, names, out, want)
                 pcases = [
                     (T[0], T[4], {'x': 'xp'}, ['xp']),
@@ -2784,17 +2789,20 @@ def operations_model(P, R, which=None):
                 for trans, target, mp, qv in pcases:
                     if any(abs(lv[a] - lv[b]) != 1 for a, b in mp.items()):
                         continue
-                    obj = fresh(base)
-                    out, _ = call(pre, obj, [
-                        trans, target, dict(mp), list(qv), obj, False],
-                        method=False)
-                    rt = ren(tt[target], mp)
-                    conj = tuple(p and q for p, q in zip(tt[trans], rt))
-                    want = quant(conj, qv, False)
-                    check((pre, 'preimage'),
-                          f'order {order}: preimage(trans={trans}, '
-                          f'target={target}, rename={mp}, qvars={qv})',
-                          obj, ext, names, out, want)
+                    for forall in (False, True):
+                        obj = fresh(base)
+                        out, _ = call(pre, obj, [
+                            trans, target, dict(mp), list(qv), obj,
+                            forall], method=False)
+                        rt = ren(tt[target], mp)
+                        conj = tuple(p and q for p, q in
+                                     zip(tt[trans], rt))
+                        want = quant(conj, qv, forall)
+                        check((pre, 'preimage'),
+                              f'order {order}: preimage(trans={trans}, '
+                              f'target={target}, rename={mp}, qvars={qv}, '
+                              f'forall={forall})',
+                              obj, ext, names, out, want)
     except interp.Unknown as e:
         R.undecided('R-OPTAB', 'dd.bdd.BDD (operations)',
                     'operations model', str(e))
@@ -4737,6 +4745,59 @@ def r_mdd_collect(P, R):
     if n is not None:
         R.floor('R-PAIR calls of the MDD collection model', n, 20)
 r_mdd_collect.NAME = 'R-PAIR(MDD collection model)'
+
+
+def operator_str_model(P, R):
+    """`str(u)` of a handle (`dd._abc.Operator.__str__`, which
+    `dd.autoref.Function` inherits) interpreted for handles on nodes of
+    both signs, the constants among them.  C05: the text is `@` followed
+    by the reference as `int(u)` gives it - what the documented `@n` form
+    of `add_expr` reads back through `_add_int` as the same reference."""
+    f = P.func('dd._abc.Operator.__str__', required=False)
+    if f is None:
+        return None
+    stubs = ClassStubs(P, 'dd.bdd.BDD')
+    resolver = interp.ModuleEnv(P, 'dd.autoref', stubs)
+    try:
+        fcls = resolver('Function')
+    except KeyError:
+        return None
+    if any(isinstance(st, ast.FunctionDef) and st.name == '__str__'
+           for st in fcls[1].body):
+        f = P.func('dd.autoref.Function.__str__')
+    res_f = resolver.module(f.qualname.rsplit('.', 2)[0]) or resolver
+    problems = dict()
+    n = 0
+    try:
+        for u in (1, -1, 2, -2, 3, -7, 12):
+            n += 1
+            h = interp.Sym('Function', {'node': u, 'bdd': None,
+                                        'manager': None})
+            h.cls = fcls
+            out, _ = interp.run_function(f.node, {'self': h}, stubs, res_f)
+            if out[0] != 'return' or out[1] != f'@{u}':
+                problems.setdefault('text', (
+                    f'str() of a handle on {u} gives {out[0]} '
+                    f'{out[1]!r}, not {"@" + str(u)!r}: `add_expr` would '
+                    'read it back as another reference'))
+    except interp.Unknown as e:
+        R.undecided('R-FORMAT', f.qualname, 'reference text model', str(e))
+        return None
+    for sub, msg in sorted(problems.items()):
+        R.violation('R-FORMAT', f'str-{sub}', f.qualname, '__str__', msg,
+                    unit=f.unit.rel, line=f.lineno)
+    if not problems:
+        R.holds('R-FORMAT', f.qualname,
+                f'reference text model ({n} handles): str() gives @ and '
+                'the signed reference')
+    return n
+
+
+def r_operator_str(P, R):
+    n = operator_str_model(P, R)
+    if n is not None:
+        R.floor('R-FORMAT handles of the reference text model', n, 5)
+r_operator_str.NAME = 'R-FORMAT(reference text model)'
 
 
 def dot_model(P, R):
